@@ -3063,6 +3063,9 @@ EbErrorType svt_svt_enc_init_parameter(
         return EB_ErrorBadParameter;
     }
 
+    // Every field not assigned below defaults to zero, whatever the caller's memory contained
+    memset(config_ptr, 0, sizeof(*config_ptr));
+
     config_ptr->frame_rate = 30 << 16;
     config_ptr->frame_rate_numerator = 0;
     config_ptr->frame_rate_denominator = 0;
